@@ -18,6 +18,19 @@ Key(fold, n) == [k \in 1..Len(n) |-> FoldC(fold, n[k])]
 QComps(toks) == [k \in 1..Len(toks) |-> toks[k].c]
 Dir(n) == SubSeq(n, 1, Len(n) - 1)
 
+(* ---- the model's symbols and their concretisations ------------------------------- *)
+\* The bounded model speaks of symbols; "A", "X", "AB", "B" are other spellings of "a", "x",
+\* "ab", "b".  The harness replays it with several concretisations of the symbols (plain ASCII,
+\* and texts whose case folding is not their lower-casing: 'straße'/'STRASSE', ...).  A
+\* concretisation is admissible when it is injective and two symbols are equivalent exactly
+\* when the texts are case-fold equivalent under the fold table in play.
+AbsFold(c) == CASE c = "A" -> "a" [] c = "X" -> "x" [] c = "AB" -> "ab" [] c = "B" -> "b" [] OTHER -> c
+Admissible(fold, tab) ==
+    \A s, t \in DOMAIN tab :
+        /\ (tab[s] = tab[t] => s = t)
+        /\ ((AbsFold(s) = AbsFold(t)) <=> (FoldC(fold, tab[s]) = FoldC(fold, tab[t])))
+ConcName(tab, n) == [k \in 1..Len(n) |-> tab[n[k]]]
+
 (* ---- one filesystem ------------------------------------------------------- *)
 Having(fold, fs, n) == {f \in fs : Key(fold, f.n) = Key(fold, n)}
 Lookup(fold, fs, n) == {f.c : f \in Having(fold, fs, n)}
